@@ -43,6 +43,9 @@ type boxJob struct {
 
 var boxPark = map[string]bool{"tick": true, "decide": true, "forward": true, "hlock": true, "send": true, "fwdsend": true, "next": true, "gcmark": true, "gcsweep": true}
 
+// entry points of the public calls: logged by the model as part of the first step of the call
+var boxPass = map[string]bool{"recv": true}
+
 type boxThread struct {
 	name   string
 	wake   chan struct{}
@@ -75,7 +78,10 @@ func installBoxHook() {
 				return
 			}
 			t := v.(*boxThread)
-			if !boxPark[point] {
+			// a yield point the lock-step model does not know (a lock acquisition added to the Box) parks as well: the schedule then
+			// interleaves the other threads at that point, the hand-off monitors judge the real log, and the trace validator reports the
+			// unexplained step as drift
+			if !boxPark[point] && boxPass[point] {
 				return
 			}
 			t.parked <- point
